@@ -22,7 +22,8 @@ MIN_NONTRIVIAL = {"quick": 300, "thorough": 3000}
 REQUIRED_PROBES = ["write_pixels"]
 REQUIRED_FEATURES = ["form:df_sorted", "form:df_shuffled", "form:dict", "form:chunks_df", "form:chunks_dict",
                      "form:arrayloader", "chunks:leading-empty", "chunks:trailing-empty", "chunks:all-empty",
-                     "mode:square", "mode:symm", "extra-columns:2"]
+                     "mode:square", "mode:symm", "extra-columns:2", "ensure_sorted:shuffled-chunk",
+                     "ensure_sorted:rows-ordered-columns-shuffled"]
 
 FORMS = ["df_sorted", "df_shuffled", "dict", "chunks_df", "chunks_dict", "arrayloader", "chunks_df", "chunks_dict"]
 H5OPTS = [None, {"compression": "lzf"}, {"compression": "gzip", "compression_opts": 1},
@@ -157,6 +158,22 @@ def one_case(ctx, cid, rng, idx):
                 c.feature("chunks:all-empty")
             if any(len(x) == 1 for x in chunks):
                 c.feature("chunks:size-1")
+            es = int(rng.integers(4))
+            if es in (1, 2) and len(inp):
+                # ensure_sorted=True: rows inside a chunk may come in any order (chunks still partition the
+                # sorted table): fully shuffled, or rows in order but columns shuffled within each row
+                kw["ensure_sorted"] = True
+                newc = []
+                for ch in chunks:
+                    if es == 1:
+                        ch = ch.iloc[rng.permutation(len(ch))]
+                        c.feature("ensure_sorted:shuffled-chunk")
+                    else:
+                        key = rng.random(len(ch))
+                        ch = ch.assign(_k=key).sort_values(["bin1_id", "_k"]).drop(columns="_k")
+                        c.feature("ensure_sorted:rows-ordered-columns-shuffled")
+                    newc.append(ch.reset_index(drop=True))
+                chunks = newc
             if form == "chunks_dict":
                 chunks = [{col: ch[col].to_numpy() for col in ch.columns} for ch in chunks]
             pixels = iter(chunks) if rng.random() < 0.5 else (ch for ch in chunks)
